@@ -3,14 +3,23 @@
 //   ok <value>            the value returned
 //   ub <value>            UBSan reported undefined behaviour while evaluating
 // The same lines are answered by the Lean driver from the generated terms.
+//   number <par:16hex>    integer::number::eval on a gene parameter  -> ok <int> | ub <int>
+//   init <m> <u> <seed>   integer::number(c, m, u).init() after random::seed(seed) -> <16hex> (the parameter)
+//   cast <value>          integer::cast(value_t)                     -> ok <int> | T
+//   b64 <op> <a:16hex> <b:16hex|int>   the exact double operation itself (lt le eq isnan isfinite ofint trunc)
+//   loadrun <par text>    i_mep::load of a three-row INT program whose parameters are <par text>, then vita::run
+//                         -> load=<0|1> valid=<0|1> <ok v|ub v|T|V>
+// (compiled with -fsanitize=float-cast-overflow: g++ does not include it in -fsanitize=undefined)
 #define VERIF_UBSAN_HOOK
-#include "common/verif.h"
+#include "c01_wire.h"
 
 #include "kernel/vita.h"
 #include "kernel/gp/src/primitive/int.h"
 
+#include <cmath>
 #include <map>
 #include <memory>
+#include <sstream>
 
 namespace
 {
@@ -19,8 +28,28 @@ struct params : vita::symbol_params
   std::vector<int> a;
   vita::value_t fetch_arg(unsigned i) override { return vita::value_t(a.at(i)); }
   vita::value_t fetch_opaque_arg(unsigned i) override { return fetch_arg(i); }
-  vita::terminal_param_t fetch_param() const override { return 0; }
+  double par = 0.0;
+  vita::terminal_param_t fetch_param() const override { return par; }
 };
+
+std::string b64(const std::string &op, const std::string &x, const std::string &y)
+{
+  const double a = verif::from_bits(std::stoull(x, nullptr, 16));
+  if (op == "ofint") return wire::hex16(verif::bits(static_cast<double>(std::stoll(y))));
+  if (op == "isnan") return std::isnan(a) ? "1" : "0";
+  if (op == "isfinite") return std::isfinite(a) ? "1" : "0";
+  if (op == "trunc")
+  {
+    if (!std::isfinite(a)) return "none";
+    if (!(std::fabs(a) < 9223372036854775808.0)) return "big";
+    return std::to_string(static_cast<long long>(a));
+  }
+  const double b = verif::from_bits(std::stoull(y, nullptr, 16));
+  if (op == "lt") return a < b ? "1" : "0";
+  if (op == "le") return a <= b ? "1" : "0";
+  if (op == "eq") return a == b ? "1" : "0";
+  return "bad-op";
+}
 }
 
 int main()
@@ -37,11 +66,78 @@ int main()
   prim["ifl"] = std::make_unique<integer::ifl>(cvect{0, 0});
   prim["ifz"] = std::make_unique<integer::ifz>(cvect{0});
 
+  log::reporting_level = log::lOFF;
+  const integer::number number0(cvect{0});
+
   std::string line;
   while (std::getline(std::cin, line))
   {
     const auto t = verif::split(line);
     if (t.empty()) continue;
+    if (t[0] == "number" && t.size() == 2)
+    {
+      params p;
+      p.par = verif::from_bits(std::stoull(t[1], nullptr, 16));
+      const auto before = verif::ubsan_reports;
+      const value_t v = number0.eval(p);
+      const bool ub = verif::ubsan_reports != before;
+      std::cout << (ub ? "ub " : "ok ") << wire::enc(v) << "\n";
+      continue;
+    }
+    if (t[0] == "init" && t.size() == 4)
+    {
+      const integer::number n(cvect{0}, int(std::stoll(t[1])), int(std::stoll(t[2])));
+      random::seed(unsigned(std::stoul(t[3])));
+      const auto before = verif::ubsan_reports;
+      const double d = n.init();
+      std::cout << wire::hex16(verif::bits(d)) << " " << (n.parametric() ? 1 : 0)
+                << (verif::ubsan_reports != before ? " ub" : "") << "\n";
+      continue;
+    }
+    if (t[0] == "cast" && t.size() == 2)
+    {
+      std::string out;
+      try { out = "ok " + std::to_string(integer::cast(wire::dec(t[1]))); }
+      catch (const std::bad_variant_access &) { out = "T"; }
+      std::cout << out << "\n";
+      continue;
+    }
+    if (t[0] == "b64" && t.size() == 4)
+    {
+      std::cout << b64(t[1], t[2], t[3]) << "\n";
+      continue;
+    }
+    if (t[0] == "loadrun" && t.size() == 2)
+    {
+      // public API only: a symbol set with the INT ephemeral constant and ADD, an individual read
+      // with i_mep::load, vita::run
+      problem pr;
+      pr.env.init();
+      const auto *num = pr.sset.insert<integer::number>(cvect{0});
+      const auto *add = pr.sset.insert<integer::add>(cvect{0});
+      std::ostringstream txt;
+      txt << "0\n3 1\n" << add->opcode() << " 1 2\n" << num->opcode() << " " << t[1] << "\n"
+          << num->opcode() << " " << t[1] << "\n0 0\n";
+      std::istringstream in(txt.str());
+      i_mep ind;
+      const bool ok = ind.load(in, pr.sset);
+      std::cout << "load=" << ok;
+      if (ok)
+      {
+        const bool valid = ind.is_valid();
+        std::cout << " valid=" << valid;
+        if (valid)
+        {
+          const auto before = verif::ubsan_reports;
+          std::string out;
+          try { out = wire::enc(run(ind)); }
+          catch (const std::bad_variant_access &) { out = "T"; }
+          std::cout << (verif::ubsan_reports != before ? " ub " : " ok ") << out;
+        }
+      }
+      std::cout << "\n";
+      continue;
+    }
     if (t[0] == "names")
     {
       std::string s;
